@@ -42,8 +42,11 @@ Qed.
 Theorem C17_wire_rt_partial : forall m rest, msg_ok m = true ->
   msg_read (wire m ++ rest) = Some (norm m, rest).
 Proof. exact wire_rt. Qed.
-Theorem C17_wire_rt_refuted : exists m, homog m = false /\ msg_read (wire m) <> Some (norm m, []).
-Proof. exact wire_rt_mixed_refuted. Qed.
+Theorem C17_wire_encodes_partial : forall m, msg_ok m = true -> wire_opt m = Some (wire m).
+Proof. exact wire_opt_ok. Qed.
+Theorem C17_wire_encodes_refuted :
+  exists m, homog m = false /\ wire_opt m = None /\ of_json (to_json m) = Some (norm m).
+Proof. exact wire_mixed_refuted. Qed.
 Theorem C17_forms_agree_partial : forall m, msg_ok m = true ->
   match msg_read (wire m) with Some (x, _) => Some x | None => None end = of_json (to_json m).
 Proof. exact forms_agree. Qed.
@@ -73,6 +76,10 @@ Theorem C17_type_rt_partial : forall id sender target rest, in_sw 32 id -> msg_o
   type_read (type_write id sender target ++ rest)
   = Some (id, norm sender, match target with Some t => Some (norm t) | None => None end, rest).
 Proof. exact type_rt. Qed.
+Theorem C17_type_encodes_partial : forall id sender target, msg_ok sender = true ->
+  match target with Some t => msg_ok t = true | None => True end ->
+  type_write_opt id sender target = Some (type_write id sender target).
+Proof. exact type_write_opt_ok. Qed.
 
 (* ---- plain rendering: one left-to-right pass that deletes every occurrence of a code of the
    library's table and nothing else *)
@@ -134,11 +141,13 @@ Print Assumptions C17_norm_no_bare.
 Print Assumptions C17_reader_inverts_encoder.
 Print Assumptions C17_wire_wellformed_partial.
 Print Assumptions C17_wire_rt_partial.
-Print Assumptions C17_wire_rt_refuted.
+Print Assumptions C17_wire_encodes_partial.
+Print Assumptions C17_wire_encodes_refuted.
 Print Assumptions C17_forms_agree_partial.
 Print Assumptions C17_accepts_nbt.
 Print Assumptions C17_accepts_json.
 Print Assumptions C17_type_rt_partial.
+Print Assumptions C17_type_encodes_partial.
 Print Assumptions C17_strip_removes.
 Print Assumptions C17_strip_keeps.
 Print Assumptions C17_strip_length.
